@@ -316,6 +316,54 @@ impl<'a> Exec<'a> {
         let t = self.inspect(".weedset", "weedset")?;
         self.dir.remove(".weedset.skf");
         let s: BTreeSet<u128> = t.rows.keys().copied().collect();
+        // An N only breaks windows: the k-mers occurring in a record with N's are those of its N-free
+        // stretches. The same weed file written with every stretch as a record of its own must give
+        // the same set (no model of k-mer extraction involved: the builder is compared with itself).
+        let text = self.c.extra[weed].clone();
+        if text.lines().any(|l| !l.starts_with('>') && l.contains('N')) {
+            let mut recs: Vec<String> = vec![];
+            for l in text.lines() {
+                if l.starts_with('>') {
+                    recs.push(String::new());
+                } else if let Some(r) = recs.last_mut() {
+                    r.push_str(l);
+                }
+            }
+            let mut split = String::new();
+            let mut i = 0;
+            let mut exactly_k = false;
+            for r in recs {
+                for seg in r.split('N').filter(|x| !x.is_empty()) {
+                    // a record of exactly k bases is the known corner of the builder that C01 (not
+                    // claimed here) is about: it would make the two spellings differ for that reason
+                    exactly_k |= seg.len() == k;
+                    split.push_str(&format!(">seg{i}\n{seg}\n"));
+                    i += 1;
+                }
+            }
+            if exactly_k {
+                self.weed_sets.insert(key, s.clone());
+                return Ok(s);
+            }
+            self.dir.write(".weedsplit.fa", split.as_bytes());
+            let mut a = vec!["build".to_string(), "-o".into(), ".weedsplit".into(), "-k".into(), k.to_string()];
+            if !rc {
+                a.push("--single-strand".into());
+            }
+            a.push(".weedsplit.fa".into());
+            let r = self.run(a)?;
+            if r.ok() {
+                let t2 = self.inspect(".weedsplit", "weedset")?;
+                let s2: BTreeSet<u128> = t2.rows.keys().copied().collect();
+                self.dir.remove(".weedsplit.skf");
+                if s2 != s {
+                    let d: Vec<String> = s.symmetric_difference(&s2).take(3).map(|x| format!("{x:#x}")).collect();
+                    return viol("weed:kmers-of-a-record-with-N-differ-from-those-of-its-N-free-stretches", format!("{weed} at k={k} rc={rc}: {} k-mers from the records as written, {} from the same stretches as separate records; e.g. {d:?}", s.len(), s2.len()));
+                }
+                probe("weedset_with_N_checked_against_split_records");
+            }
+            self.dir.remove(".weedsplit.fa");
+        }
         self.weed_sets.insert(key, s.clone());
         Ok(s)
     }
